@@ -346,6 +346,11 @@ func (x *bufExec) do(g string, op BOp) {
 			err = x.b.Range(x.ctx(op.Ctx), c, func(index int, value interface{}) bool {
 				iv, _ := value.(int)
 				seen = append(seen, iv)
+				// the callback takes a while: other goroutines may run (e.g. Put) before it returns
+				for k := 0; k < 6; k++ {
+					ctl.Gate("drv.cb")
+				}
+				x.r.Add(rec.Ev{"ev": "bcb", "g": g, "i": index})
 				return true
 			})
 		})
@@ -421,6 +426,14 @@ func genBufScenario(rng *rand.Rand, profile string, mode string) *BScenario {
 	if rng.Intn(100) < wFixed {
 		mx := rng.Intn(4)
 		sc.Cleaner.Kind, sc.Cleaner.Max, sc.Cleaner.Target = "fixed", mx, rng.Intn(mx+1)
+		if profile == "retention" && rng.Intn(3) == 0 {
+			// every max/target pair: also negative targets, targets beyond max, negative max
+			sc.Cleaner.Max, sc.Cleaner.Target = rng.Intn(5)-1, rng.Intn(8)-3
+		}
+		if profile == "retention" && rng.Intn(6) == 0 {
+			// a custom cleaner that answers a constant, possibly negative or far beyond the size
+			sc.Cleaner.Kind, sc.Cleaner.Max, sc.Cleaner.Target = "const", []int{-2, 0, 1, 2, 9}[rng.Intn(5)], 0
+		}
 	}
 	if profile == "reclaim" && rng.Intn(3) > 0 {
 		sc.Cleaner.CooldownUs = []int{100, 300, 800}[rng.Intn(3)]
@@ -497,6 +510,19 @@ func genBufScenario(rng *rand.Rand, profile string, mode string) *BScenario {
 		if rng.Intn(2) == 0 {
 			sc.Drivers = append(sc.Drivers, []BOp{{K: "put", N: 1 + rng.Intn(2)}, {K: "size"}})
 		}
+		return sc
+	}
+	// property-driven shape for Buffer.Range (C02): values are Put while the iteration is going on, in particular while
+	// the callback for the currently last value runs - Range must still visit them, and stop at the end instead of blocking
+	if profile == "txn" && rng.Intn(100) < 30 {
+		sc.Drivers = nil
+		sc.NCtx = 1
+		sc.Setup = []BOp{{K: "newc", C: 1}, {K: "put", N: 1 + rng.Intn(3)}}
+		sc.Drivers = append(sc.Drivers, []BOp{{K: "brange", C: 1, Ctx: 0}, {K: "diff", C: 1}})
+		for d := 1 + rng.Intn(2); d > 0; d-- {
+			sc.Drivers = append(sc.Drivers, []BOp{{K: "nop", N: rng.Intn(14)}, {K: "put", N: 1 + rng.Intn(2)}})
+		}
+		sc.Small = true
 		return sc
 	}
 	// property-driven shapes for wake-ups (C05): one or two Gets parked on an empty buffer (or about to park) while a
@@ -607,6 +633,33 @@ func genBufScenario(rng *rand.Rand, profile string, mode string) *BScenario {
 	return sc
 }
 
+// bufProgram turns a behaviour generated by TLC from BufferGEN.tla (one caller, calls in order, the first record is
+// the cleaner configuration) into a scenario whose setup goroutine issues the calls one after the other
+func bufProgram(line string) *BScenario {
+	var calls []struct {
+		K string `json:"k"`
+		C int    `json:"c"`
+		N int    `json:"n"`
+	}
+	if err := json.Unmarshal([]byte(line), &calls); err != nil {
+		fatalf("bad program %q: %v", line, err)
+	}
+	sc := &BScenario{Profile: "gen", NCtx: 1, Cleaner: BCleaner{Kind: "default"}}
+	for _, c := range calls {
+		switch c.K {
+		case "cleaner":
+			if c.C >= 0 {
+				sc.Cleaner = BCleaner{Kind: "fixed", Max: c.C, Target: c.N}
+			}
+		case "put":
+			sc.Setup = append(sc.Setup, BOp{K: "put", N: c.N})
+		default:
+			sc.Setup = append(sc.Setup, BOp{K: c.K, C: c.C})
+		}
+	}
+	return sc
+}
+
 // runBufExec executes one scenario; mode "c" (controlled) or "f" (free-running).
 var bufDFS *sched.DFS // set while a scenario is being enumerated
 
@@ -621,6 +674,10 @@ func runBufExec(execID int, sc *BScenario, mode string, seed int64, strategy str
 	var cleaner bigbuff.Cleaner = bigbuff.DefaultCleaner
 	if sc.Cleaner.Kind == "fixed" {
 		cleaner = bigbuff.FixedBufferCleaner(sc.Cleaner.Max, sc.Cleaner.Target, nil)
+	}
+	if sc.Cleaner.Kind == "const" {
+		k := sc.Cleaner.Max
+		cleaner = func(size int, offsets []int) int { return k }
 	}
 	self := sched.Goid()
 	before := map[int64]bool{}
@@ -881,6 +938,20 @@ func cmdBuffer(args map[string]string) {
 			fatalf("%v", err)
 		}
 	}
+	// -programs FILE: replay TLC-generated behaviours (BufferGEN.tla), one execution each
+	var programs []string
+	if pf := args["programs"]; pf != "" {
+		b, err := os.ReadFile(pf)
+		if err != nil {
+			fatalf("%v", err)
+		}
+		for _, ln := range strings.Split(string(b), "\n") {
+			if strings.TrimSpace(ln) != "" {
+				programs = append(programs, ln)
+			}
+		}
+		n = len(programs)
+	}
 	for i := 0; i < n; i++ {
 		if budget > 0 && time.Since(t0) > budget {
 			break
@@ -889,11 +960,19 @@ func cmdBuffer(args map[string]string) {
 		if fixed != nil {
 			sc = fixed
 		}
+		if programs != nil {
+			sc = bufProgram(programs[i])
+		}
 		eseed := rng.Int63()
 		// each scenario is run under a few different schedules in controlled mode
 		reps := 1
 		if mode == "c" {
 			reps = 3
+		}
+		if programs != nil {
+			reps = 1
+		} else if mode == "c" && sc.Small {
+			reps = 6 // property-driven shapes are small and cheap: more schedules each
 		}
 		dfsMax := int(atoi64(args["dfsmax"], 0))
 		if mode == "c" && sc.Small && dfsMax > 0 {
